@@ -73,10 +73,12 @@ func (fr *Frame) instr(in ssa.Instruction, st *State, reach string) (stop bool, 
 		v := fr.val(x.Val)
 		el := x.Addr.Type().Underlying().(*types.Pointer).Elem()
 		fr.nilCheck(addr, reach, x.Pos(), "store")
-		if v.Loc != nil && v.T == "" {
-			g.note("%s: a symbolic address is stored to memory (escapes): target heap %s havocked", fr.fn, v.Loc.Heap)
+		if v.Loc != nil {
+			g.note("%s: the address of %s is stored to memory (escapes)", fr.fn, v.Loc.Heap)
 			fr.escape(v, st)
-			v = fr.havocVal(x.Val.Type(), "escaped", st)
+			if v.T == "" {
+				v = fr.havocVal(x.Val.Type(), "escaped", st)
+			}
 		}
 		g.storePtr(st, addr, el, v)
 		fr.ghostAnchors("store "+storeDesc(x), st, reach, in, Val{})
@@ -246,11 +248,34 @@ func (fr *Frame) alloc(x *ssa.Alloc, st *State) Val {
 		h := g.elemsHeap(u.Elem())
 		g.heapSet(st, h, app("store", g.heapGet(st, h), ref, g.sorts.ZeroOf(el)))
 	default:
+		if !fr.inLoop(x.Block()) {
+			// an address-taken local variable outside any loop: its own heap variable, not reachable by callees
+			// unless its address escapes
+			g.nLocal++
+			name := x.Comment
+			if name == "" {
+				name = x.Name()
+			}
+			h := g.regHeap(fmt.Sprintf("Local:%s.%s#%d", fr.fn.Name(), name, g.nLocal), g.sorts.SortOf(el))
+			l := &Loc{Heap: h, T: el}
+			g.storeLoc(st, l, g.sorts.ZeroOf(el))
+			v.Loc = l
+			return v
+		}
 		l := &Loc{Heap: g.cellHeap(el), Idx: []string{ref}, T: el}
 		g.storeLoc(st, l, g.sorts.ZeroOf(el))
 		v.Loc = l
 	}
 	return v
+}
+
+func (fr *Frame) inLoop(b *ssa.BasicBlock) bool {
+	for _, li := range fr.loops {
+		if li.body[b.Index] {
+			return true
+		}
+	}
+	return false
 }
 
 func (fr *Frame) nilCheck(p Val, reach string, pos token.Pos, what string) {
@@ -281,6 +306,9 @@ func (fr *Frame) escape(v Val, st *State) {
 	g := fr.g
 	if v.Loc == nil {
 		return
+	}
+	if strings.HasPrefix(v.Loc.Heap, "Local:") {
+		g.escaped[v.Loc.Heap] = true
 	}
 	if len(v.Loc.Idx) == 0 {
 		st.h[v.Loc.Heap] = g.fresh("esc."+v.Loc.Heap, g.heapSort(v.Loc.Heap))
@@ -672,6 +700,9 @@ func (fr *Frame) makeInterface(x *ssa.MakeInterface, st *State) Val {
 		r := fr.havocVal(x.Type(), "iface-of-addr", st)
 		g.assume(sNot(app("=", r.T, "0")))
 		return r
+	}
+	if v.Loc != nil {
+		fr.escape(v, st)
 	}
 	srt := g.sorts.SortOf(ct)
 	name := "mkif:" + typeStr(ct)
